@@ -31,15 +31,15 @@ var keyLeafKinds = []string{"bool", "int64", "uint64", "float64", "rune", "strin
 var intBounds = map[string][]int64{
 	"int8":  {math.MinInt8, -1, 0, 1, 2, math.MaxInt8},
 	"int16": {math.MinInt16, -1, 0, 1, 2, math.MaxInt16},
-	"int64": {math.MinInt64, math.MinInt64 + 1, -1, 0, 1, 2, 3, math.MaxInt64 - 1, math.MaxInt64},
-	"int":   {math.MinInt64, -1, 0, 1, 2, 3, math.MaxInt64},
+	"int64": {math.MinInt64, math.MinInt64 + 1, -(1 << 53) - 1, -(1 << 53), -1, 0, 1, 2, 3, 1 << 53, (1 << 53) + 1, math.MaxInt64 - 1, math.MaxInt64},
+	"int":   {math.MinInt64, math.MinInt64 + 1, -1, 0, 1, 2, 3, 1 << 53, (1 << 53) + 1, math.MaxInt64 - 1, math.MaxInt64},
 	"rune":  {math.MinInt32, -1, 0, 'a', 'b', 0xD800, 0x10FFFF, math.MaxInt32},
 }
 var uintBounds = map[string][]uint64{
-	"uint":   {0, 1, 2, math.MaxInt64, math.MaxInt64 + 1, math.MaxUint64},
+	"uint":   {0, 1, 2, 1 << 53, (1 << 53) + 1, math.MaxInt64, math.MaxInt64 + 1, math.MaxUint64 - 1, math.MaxUint64},
 	"uint16": {0, 1, 2, math.MaxUint16},
 	"uint32": {0, 1, 2, math.MaxUint32},
-	"uint64": {0, 1, 2, 3, math.MaxInt64, math.MaxInt64 + 1, math.MaxUint64},
+	"uint64": {0, 1, 2, 3, 1 << 53, (1 << 53) + 1, math.MaxInt64, math.MaxInt64 + 1, math.MaxUint64 - 1, math.MaxUint64},
 	"byte":   {0, 1, 2, 127, 128, 255},
 }
 var floatBounds = []float64{0, math.Copysign(0, -1), 5e-324, -5e-324, 2.2250738585072014e-308, 1, -1, 1.5, -1.5, 2, 1e300, -1e300, math.MaxFloat64, -math.MaxFloat64, math.Inf(1), math.Inf(-1), math.NaN(), 0.1, 1e-7}
@@ -449,7 +449,15 @@ func mutate(r *rng, n *node, o genOpts) (*node, string, bool) {
 		x := all[r.intn(len(all))]
 		switch {
 		case len(x.kids) == 0 && x.prim != nil && x.kind != "cyc":
-			// change one leaf to a different value of the same kind
+			// change one leaf to a different value of the same kind: half of the time to an
+			// immediate neighbour (next integer, next float, one byte more), where a lossy
+			// comparison (through a narrower or a floating type, a hash, a prefix) would not tell them apart
+			if r.chance(1, 2) {
+				if y := neighbourLeaf(r, x); y != nil && !sameLeaf(x, y) {
+					x.prim = y.prim
+					return c, "leaf-neighbour", true
+				}
+			}
 			for k := 0; k < 10; k++ {
 				y := genLeaf(r, x.kind, false)
 				if !sameLeaf(x, y) {
@@ -656,6 +664,17 @@ func genCollate(prop string, seed uint64, tier, outDir string, count int) error 
 			default:
 				nb = genSameShape(r, na, depth, o)
 			}
+			// the property quantifies over values "of one type": wherever the two values are compared
+			// element by element, a Go slice (map) of `any` must not meet a typed Go slice (map) - the
+			// collator does not support that mix (reflect panics) and the model does not tell them apart
+			for try := 0; try < 20 && !compatibleNodes(na, nb); try++ {
+				nb = genSameShape(r, na, depth, o)
+				note = "pair"
+			}
+			if !compatibleNodes(na, nb) {
+				nb = cloneNode(na)
+				note = "copy"
+			}
 			a := build(na, r)
 			b := build(nb, r)
 			ea, eb := encValDepth(a, maximum+3), encValDepth(b, maximum+3)
@@ -773,4 +792,130 @@ func safeString(v any) (s string) {
 		}
 	}()
 	return encValDepth(v, 4)
+}
+
+// neighbourLeaf returns a leaf of the same kind whose value is adjacent to x's (nil when there is none)
+func neighbourLeaf(r *rng, x *node) *node {
+	y := &node{kind: x.kind}
+	up := r.chance(1, 2)
+	switch v := x.prim.(type) {
+	case bool:
+		y.prim = !v
+	case int64:
+		lo, hi := int64(math.MinInt64), int64(math.MaxInt64)
+		switch x.kind {
+		case "int8":
+			lo, hi = math.MinInt8, math.MaxInt8
+		case "int16":
+			lo, hi = math.MinInt16, math.MaxInt16
+		case "rune":
+			lo, hi = math.MinInt32, math.MaxInt32
+		}
+		if (up && v < hi) || v == lo {
+			y.prim = v + 1
+		} else {
+			y.prim = v - 1
+		}
+	case uint64:
+		hi := uint64(math.MaxUint64)
+		switch x.kind {
+		case "uint16":
+			hi = math.MaxUint16
+		case "uint32":
+			hi = math.MaxUint32
+		case "byte":
+			hi = 255
+		}
+		if (up && v < hi) || v == 0 {
+			y.prim = v + 1
+		} else {
+			y.prim = v - 1
+		}
+	case float64:
+		if math.IsNaN(v) || math.IsInf(v, 0) {
+			return nil
+		}
+		if up {
+			y.prim = math.Nextafter(v, math.Inf(1))
+		} else {
+			y.prim = math.Nextafter(v, math.Inf(-1))
+		}
+	case float32:
+		if v != v || math.IsInf(float64(v), 0) {
+			return nil
+		}
+		if up {
+			y.prim = math.Nextafter32(v, float32(math.Inf(1)))
+		} else {
+			y.prim = math.Nextafter32(v, float32(math.Inf(-1)))
+		}
+	case string:
+		switch {
+		case len(v) > 0 && r.chance(1, 3):
+			y.prim = v[:len(v)-1]
+		case len(v) > 0 && r.chance(1, 2):
+			b := []byte(v)
+			b[len(b)-1]++
+			y.prim = string(b)
+		default:
+			y.prim = v + "\x00"
+		}
+	default:
+		return nil
+	}
+	return y
+}
+
+// Go type family of a container node as far as reflect kinds of its ELEMENTS are concerned
+func elemTyping(k string) string {
+	switch k {
+	case "slice", "nilslice":
+		return "slice-of-any"
+	case "ints", "strs", "flts", "iis":
+		return "typed-slice:" + k
+	case "gomap", "nilmap":
+		return "map-of-any"
+	case "msi":
+		return "typed-map"
+	}
+	return ""
+}
+
+func coarse(k string) string {
+	switch k {
+	case "slice", "nilslice", "ints", "strs", "flts", "iis":
+		return "array"
+	case "gomap", "nilmap", "msi":
+		return "map"
+	}
+	return k
+}
+
+// compatibleNodes is conservative: every pair of sub-values that the collator might compare must be of one Go type family
+func compatibleNodes(a, b *node) bool {
+	if a == nil || b == nil {
+		return true
+	}
+	ca, cb := coarse(a.kind), coarse(b.kind)
+	if ca != cb {
+		return true // different coarse types: decided by the type names, elements are never compared
+	}
+	if elemTyping(a.kind) != elemTyping(b.kind) {
+		return false
+	}
+	for _, x := range a.kids {
+		for _, y := range b.kids {
+			if !compatibleNodes(x, y) {
+				return false
+			}
+		}
+	}
+	for _, x := range a.vals {
+		for _, y := range b.vals {
+			if !compatibleNodes(x, y) {
+				return false
+			}
+		}
+	}
+	return true
 }
